@@ -165,18 +165,47 @@ pub fn generate(property: &str, seed: u64, tier: Tier) -> Plan {
             steps.insert(a, json!({"op":"fdesc","dev":d,"fslot":fslot,"val":val + 501}));
         }
     }
+    if property == "C19" {
+        // upgrades of devices (and sometimes the server) from the file-system
+        // to the database backend at seeded positions, with synced and
+        // unsynced state, plus a few external attachments
+        let mut ur = Rng::new(seed).fork("netw.c19");
+        let n_x = ur.range(0, 2);
+        for k in 0..n_x {
+            let at = 2 + ur.below(steps.len() as u64 - 1) as usize;
+            steps.insert(at, json!({"op":"xcreate","dev":ur.below(n_dev),"slot":ur.below(N_SLOTS),"folder":*ur.pick(&[0u64, 0, 4]),
+                "val":val + 700 + k,"size":ur.below(5),"label":ur.below(3),"tags":ur.below(8),"fav":false}));
+        }
+        let n_up = ur.range(1, 3);
+        for _ in 0..n_up {
+            let d = ur.below(n_dev);
+            let at = 2 + ur.below(steps.len() as u64 - 1) as usize;
+            steps.insert(at, json!({"op":"upgrade","dev":d,"keep_stale":ur.chance(1,2)}));
+            if ur.chance(1, 2) {
+                // in-sync case: sync right before
+                steps.insert(at, json!({"op":"sync","dev":d}));
+            }
+        }
+        if ur.chance(1, 3) {
+            let at = 2 + ur.below(steps.len() as u64 - 1) as usize;
+            steps.insert(at, json!({"op":"upgrade_server"}));
+        }
+    }
     steps.push(json!({"op":"quiesce","pin":true,"order":r.next_u64() % 1000}));
     let skews: Vec<i64> = (0..n_dev)
         .map(|_| if skew { (r.below(7) as i64 - 3) * 400_000_000 } else { 0 })
         .collect();
+    let fs_only = property == "C19";
+    let server_db_draw = r.chance(1, 2);
+    let device_db_draw: Vec<bool> = (0..n_dev).map(|_| r.chance(1, 2)).collect();
     Plan {
         family: "netw".into(),
         property: property.into(),
         seed,
         config: json!({
             "devices": n_dev,
-            "server_db": r.chance(1,2),
-            "device_db": (0..n_dev).map(|_| r.chance(1,2)).collect::<Vec<_>>(),
+            "server_db": server_db_draw && !fs_only,
+            "device_db": device_db_draw.iter().map(|x| *x && !fs_only).collect::<Vec<_>>(),
             "skew_ns": skews,
             "clock_tie": r.chance(1,5),
             "system_folders": r.chance(1,2),
@@ -314,7 +343,14 @@ pub async fn execute(plan: Plan, dir: &Path) -> RunOutcome {
         .and_then(|v| v.as_array())
         .map(|a| a.iter().map(|x| x.as_i64().unwrap_or(0)).collect())
         .unwrap_or_default();
-    if jbool(&cfg, "clock_tie") {
+    let has_external_files = plan.steps.iter().any(|s| jstr(s, "op") == "xcreate");
+    if has_external_files {
+        // see filew.rs: keeps age's scrypt calibration at its probe work factor
+        // (a zero tick would make the calibration loop raise the work factor
+        // until the probe takes measurable time, i.e. for ever)
+        crate::interpose::clock_set_tick(2_000_000_000);
+    }
+    if jbool(&cfg, "clock_tie") && !has_external_files {
         // identical timestamps on different devices become likely
         crate::interpose::clock_set_tick(0);
     }
@@ -565,6 +601,8 @@ pub async fn execute(plan: Plan, dir: &Path) -> RunOutcome {
                 let r = world.devices[di].dev.exec(s, &mut rec, 0).await;
                 r
             }
+            "upgrade" => crate::upgradew::upgrade_device(&mut world, di, s, &mut rec).await,
+            "upgrade_server" => crate::upgradew::upgrade_server(&mut world, &mut rec).await,
             "trust" => no::trust_op(&mut world, di, s, &mut rec).await,
             "stale_patch" => no::stale_patch_op(&mut world, di, s, &mut rec).await,
             "forge" => crate::authw::forge_sweep(&mut world, s, &mut rec).await,
